@@ -276,8 +276,30 @@ def check_reply(ctx, rng):
                 res['viol'].append(('reply-transmitted-after-deadline', 'reply after the lifetime elapsed was transmitted', w))
             if bool(ret) != bool(sent):
                 res['viol'].append((f'reply-return-untruthful:returned={ret!r},sent={bool(sent)}', f'reply returned {ret!r} although the packet was {"" if sent else "not "}sent', w))
+        # replies after the face went down (inside the lifetime): nothing can be transmitted, so "sent" must not be reported
+        pend = []
+        for j in range(4):
+            seq += 1
+            name = [C(b'r'), rc.comp(8, str(seq).encode())]
+            iw = bytes(make_interest(name, InterestParam(lifetime=4000, nonce=seq)))
+            await face.deliver(iw if j % 2 else rc.make_lp(fragment=iw, pit_token=b'\x09\x09'))
+            for _ in range(3):
+                await asyncio.sleep(0)
+            pend.append((name, log[-1][1]))
         the_app.shutdown()
         await asyncio.wait_for(main_task, 5)
+        for name, reply in pend:
+            n0 = len(face.sent)
+            data = bytes(make_data(name, MetaInfo(), b'late', DigestSha256Signer()))
+            try:
+                ret = reply(data)
+            except Exception:   # noqa
+                ret = None          # raising is not a report of success
+                ctx.event('reply-face-down-raised')
+            ctx.event('reply-face-down')
+            ctx.case(('reply-face-down', len(name)), nontrivial=True)
+            if bool(ret) and len(face.sent) == n0:
+                res['viol'].append(('reply-return-untruthful:returned=True,sent=False:face-down', 'reply reported success although the face is down and nothing was transmitted', {'name': [c.hex() for c in name]}))
 
     S = vtime.run(main)
     for v in res['viol']:
